@@ -1,4 +1,5 @@
 import RosuModel.Lemmas.ConvertWF
+import RosuModel.Lemmas.TaikoTicks
 import RosuModel.Props.C06
 
 /-!
@@ -8,10 +9,14 @@ Structural parts of the three converters (`Model/ConvertWF.lean`) plus the sorti
 which cover the `TandemSorter` use at the end of `taiko::convert` and the legacy sort at the end
 of `mania::convert` (both run the very same code as the decoder).
 
+The slider arithmetic of the taiko converter (`should_convert_slider_to_taiko_hits`, the tick loop,
+the edge-sound cycle) is modelled in `Model/TaikoTicks.lean` generically in its arithmetic: the
+theorems here are about exact rationals, the driver replays the very same definitions with IEEE
+doubles against the real converter (TTICKS lines).
+
 Not covered by a theorem (oracle only): the pattern generators of the mania converter beyond the
-column arithmetic (which columns are chosen, note durations), the float arithmetic that decides
-which sliders become taiko hits, and the fact that `catch::convert` touches nothing but
-`mode`/`is_convert`.
+column arithmetic (which columns are chosen, note durations), and the fact that `catch::convert`
+touches nothing but `mode`/`is_convert`.
 -/
 
 namespace Rosu.C19
@@ -29,9 +34,11 @@ theorem taiko_splice_keeps_lengths (O : TaikoOps α β) (objs : List α) (sounds
   taikoLoop_lengths O _ _ _ _ _ h hr
 
 /-- The loop terminates within one iteration per original object and never panics
-(`hit_sounds[idx]`, `idx -= 1`), provided every converted slider yields at least one hit — which
-the tick loop guarantees because its first candidate `j = start_time` satisfies the loop bound. -/
-theorem taiko_splice_total (O : TaikoOps α β) (hgen : ∀ o s, O.generate o s ≠ [])
+(`hit_sounds[idx]`, `idx -= 1`), provided every slider that is converted yields at least one hit —
+which the tick loop guarantees because its first candidate `j = start_time` satisfies the loop
+bound (`taiko_ticks_exact`, `taiko_convert_total_exact` below). -/
+theorem taiko_splice_total (O : TaikoOps α β)
+    (hgen : ∀ o s, O.shouldConvert o = true → O.generate o s ≠ [])
     (objs : List α) (sounds : List β) (h : objs.length = sounds.length) :
     ∃ r, taikoSplice O objs sounds = some r ∧ r.1.length = r.2.length := by
   obtain ⟨r, hr⟩ := taikoLoop_total O hgen (objs.length + 1) 0 objs sounds h (by omega)
@@ -48,6 +55,103 @@ example :
       ⟨fun o => if o = 0 then .plain else if o = 1 then .slider else .hold,
         fun _ => true, fun _ s => [(0, s), (0, s + 1)], fun _ => 0⟩ [1, 2, 0, 1] [10, 20, 30, 40]
       = some ([0, 0, 0, 0, 0, 0], [10, 11, 20, 30, 40, 41]) := by decide
+
+/-! ### the slider arithmetic: at least one hit per converted slider -/
+
+section ticks
+open Rosu.TaikoTicks
+
+/-- In EVERY arithmetic (IEEE doubles included): `should_convert_slider_to_taiko_hits` returns
+`true` only when its guard `tick_spacing > 0.0` holds — the guard that makes the first loop test
+`start_time <= start_time + duration + tick_spacing / 8` succeed (`duration` is a `u32`).  A zero,
+negative or NaN spacing therefore never reaches the tick loop. -/
+theorem taiko_convert_branch_has_positive_spacing {F : Type} (A : Arith F) (m : MapIn F)
+    (s : SliderIn F) (h : (shouldConvert A m s).convert = true) :
+    A.lt (A.ofNat 0) (shouldConvert A m s).tickSpacing = true :=
+  shouldConvert_pos A m s h
+
+/-- Over exact rationals, for every map/slider parameters: whenever the code takes the "convert
+to hits" branch the tick loop terminates — after `⌊(duration + ts/8) / ts⌋ + 1` iterations
+(`tickCount`; after one iteration if `ts ≤ f64::EPSILON` triggers the `eq(0.0)` break) — and
+pushes at least one hit, the first one at the slider's start time with the first edge sound (or
+the slider's own sound when it has no edge sounds); hit `k` is at `start + k·ts` with edge sound
+`k mod max(len, 1)`. -/
+theorem taiko_ticks_exact (m : MapIn Rat) (s : SliderIn Rat) (nodeSounds : List Nat) (own fuel : Nat)
+    (hc : (shouldConvert ratArith m s).convert = true)
+    (hf : tickCount (shouldConvert ratArith m s).duration (shouldConvert ratArith m s).tickSpacing + 1
+      ≤ fuel) :
+    ∃ l, sliderOutcome ratArith fuel m s nodeSounds own = .hits l ∧
+      l.length = (if ratArith.eqZero (shouldConvert ratArith m s).tickSpacing then 1
+        else tickCount (shouldConvert ratArith m s).duration (shouldConvert ratArith m s).tickSpacing) ∧
+      1 ≤ l.length ∧ l.head? = some (s.start, nodeSounds.getD 0 own) ∧
+      ∀ (k : Nat) x, l[k]? = some x →
+        x = (s.start + (k : Rat) * (shouldConvert ratArith m s).tickSpacing,
+          nodeSounds.getD (k % max nodeSounds.length 1) own) := by
+  refine ⟨_, sliderOutcome_rat m s nodeSounds own fuel hc hf, ?_, ?_, ?_, ?_⟩
+  · split <;> simp
+  · split
+    · simp
+    · simp only [List.length_map, List.length_range]; exact tickCount_pos _ _
+  · split
+    · rfl
+    · have hp := tickCount_pos (shouldConvert ratArith m s).duration
+        (shouldConvert ratArith m s).tickSpacing
+      obtain ⟨n, hn⟩ : ∃ n, tickCount (shouldConvert ratArith m s).duration
+          (shouldConvert ratArith m s).tickSpacing = n + 1 := ⟨_, (Nat.sub_add_cancel hp).symm⟩
+      rw [hn, List.range_succ_eq_map]
+      simp [Nat.zero_mod]
+  · intro k x hx
+    split at hx
+    · cases k with
+      | zero =>
+        simp only [List.getElem?_cons_zero, Option.some.injEq] at hx
+        subst hx
+        simp [Nat.zero_mod]
+      | succ k => simp at hx
+    · rw [List.getElem?_map] at hx
+      cases hr : (List.range (tickCount (shouldConvert ratArith m s).duration
+          (shouldConvert ratArith m s).tickSpacing))[k]? with
+      | none => rw [hr] at hx; cases hx
+      | some y =>
+        rw [hr] at hx
+        have hy : y = k := by
+          rcases List.getElem?_eq_some_iff.mp hr with ⟨_, h⟩
+          simpa using h.symm
+        subst hy
+        simpa using hx.symm
+
+/-- The whole splice loop instantiated with the exact slider arithmetic (`ratOps`: decision =
+`shouldConvert`, generated hits = the tick loop): for every map parameters, every object list and
+one sound per object it terminates, never takes the `remove(idx); idx -= 1` branch, never panics,
+and keeps one sound per object — the "at least one hit per converted slider" hypothesis of
+`taiko_splice_total` is discharged. -/
+theorem taiko_convert_total_exact (m : MapIn Rat) (objs : List RObj) (sounds : List Nat)
+    (h : objs.length = sounds.length) :
+    ∃ r, taikoSplice (ratOps m) objs sounds = some r ∧ r.1.length = r.2.length :=
+  taiko_splice_total (ratOps m) (fun o s hs => ratOps_generate_ne_nil m o s hs) objs sounds h
+
+/-- A concrete converted slider (v14, SliderMultiplier 1.4, tick rate 1, beat length 500, 70 px,
+one span at t = 1000): duration 250, tick spacing 250, two hits at 1000 and 1250. -/
+def exMap : MapIn Rat := ⟨14, 7 / 5, 1⟩
+def exSlider : SliderIn Rat := ⟨1000, 70, 1, 1, 500⟩
+
+example : (shouldConvert ratArith exMap exSlider).convert = true ∧
+    (shouldConvert ratArith exMap exSlider).duration = 250 ∧
+    (shouldConvert ratArith exMap exSlider).tickSpacing = 250 ∧
+    tickCount 250 250 = 2 ∧
+    sliderOutcome ratArith 3 exMap exSlider [2, 4, 8] 0 = .hits [(1000, 2), (1250, 4)] := by
+  decide +kernel
+
+/-- …and a kept one (700 px: longer than two beats). -/
+example : (shouldConvert ratArith exMap { exSlider with dist := 700 }).convert = false := by
+  decide +kernel
+
+/-- Without the `tick_spacing > 0` guard the loop could push nothing (negative spacing larger
+than eight durations: the bound lies before the start) — the guard is what the theorem uses. -/
+example : tickLoop ratArith (tickBound ratArith 1000 10 (-100)) (-100) 1 5 1000 0 = some [] := by
+  decide +kernel
+
+end ticks
 
 /-- After the splice, `taiko::convert` runs `TandemSorter::new_stable` + `sort` on objects and
 sounds — the code path of the decoder: the result is sorted by start time, keeps one sound per
@@ -103,12 +207,14 @@ theorem generated_column_lt_total (c total : Nat) (hc : c < total) :
   ConvertWF.column_lt_total _ total (by omega)
 
 /-- `mania::convert` ends with `sort_by(start_time)` (std, stable) followed by the legacy sort: the
-start times stay non-decreasing and nothing is lost. -/
+legacy sort returns (no panic, terminates — `C06.legacy_sort_objects_total`), the start times stay
+non-decreasing and nothing is lost. -/
 theorem mania_final_sort {τ : Type} [DecidableEq τ]
-    (l l' : List (Int × τ)) (hs : KeysSorted (fun p => norm p.1) l)
-    (h : legacySort objGt objLt l = some l') :
-    l'.Perm l ∧ (l'.map (fun p => norm p.1)).Pairwise (· ≤ ·) := by
-  refine ⟨legacySort_perm h, ?_⟩
+    (l : List (Int × τ)) (hs : KeysSorted (fun p => norm p.1) l) :
+    ∃ l', legacySort objGt objLt l = some l' ∧
+      l'.Perm l ∧ (l'.map (fun p => norm p.1)).Pairwise (· ≤ ·) := by
+  obtain ⟨l', h, _⟩ := C06.legacy_sort_objects_total l
+  refine ⟨l', h, legacySort_perm h, ?_⟩
   rw [C06.legacy_sort_keeps_sorted_keys l l' hs h]
   exact hs
 
